@@ -55,7 +55,7 @@ def units_for(spec: Dict[str, Any]) -> List[tuple]:
     """spec: {"E": max_n, "FIG": bool, "LISTS": {label: [graphs]}}"""
     out: List[tuple] = []
     for n in range(1, spec.get("E", 0) + 1):
-        depth = 2 if n <= 4 else (3 if n <= 5 else 4)
+        depth = 2 if n <= 4 else (3 if n <= 5 else (4 if n <= 6 else 5))
         for (nn, prefix) in shards(n, depth):
             out.append(("E", nn, prefix))
     if spec.get("E6_quarter"):
@@ -222,5 +222,8 @@ def graph_spec(tier: str, light: bool = False) -> Dict[str, Any]:
             lists.update(bytecode_graphs(tier))
     except ImportError:
         pass
-    return {"E": (5 if tier == "quick" else 6) - (1 if light and tier != "quick" else 0), "FIG": True, "LISTS": lists,
+    emax = (5 if tier == "quick" else 6) - (1 if light and tier != "quick" else 0)
+    if os.environ.get("VERIF_E_MAX"):
+        emax = int(os.environ["VERIF_E_MAX"])      # opt-in deeper sweep, e.g. VERIF_E_MAX=7 (4.5x10^6 graphs)
+    return {"E": emax, "FIG": True, "LISTS": lists,
             "E6_quarter": tier == "quick" and not light}
